@@ -12,7 +12,7 @@ from . import npsym as N
 from . import terms as T
 from .ctx import Ctx, PathAbort, PathEnd, PyRaise
 from .extract import Index, strip_docstring
-from .values import Arr, FuncVal, Opaque, Rec, SymList, cast_elem, join_dtype
+from .values import Arr, FuncVal, HeapList, Opaque, Rec, SymList, cast_elem, join_dtype
 
 
 class _Return(Exception):
@@ -266,6 +266,10 @@ class Interp:
             if isinstance(obj, dict):
                 obj[key] = new
                 return
+            if isinstance(obj, HeapList) and isinstance(cur, Arr) and getattr(cur, "heap", None) is not None and isinstance(new, Arr):
+                # lst[k] op= x on an ndarray element: the element is updated in place (same array object)
+                N.setitem(self.ctx, cur, (slice(None), slice(None)), N.snap(new))
+                return
             raise PathAbort("augmented assignment to subscript of " + type(obj).__name__, s.lineno)
         cur = self.eval(_load(s.target), env)
         rhs = self.eval(s.value, env)
@@ -447,6 +451,12 @@ class Interp:
                 return
             if isinstance(obj, Rec):
                 return self.call_method(obj, "__setitem__", [key, v], {})
+            if isinstance(obj, HeapList):
+                k = N.norm_index(self.ctx, key, obj.length)
+                if not (isinstance(v, Arr) and v.ndim == 2 and v.kind == "ndarray"):
+                    raise PathAbort("re-binding an element of a list of matrices to something that is not a matrix", target.lineno)
+                obj.store(k, N.snap(v))
+                return
             raise PathAbort(f"subscript assignment on {type(obj).__name__}", target.lineno)
         if isinstance(target, ast.Starred):
             raise PathAbort("starred assignment", target.lineno)
@@ -688,6 +698,11 @@ class Interp:
         if not T.is_sym(b):
             if b == 0:
                 raise PyRaise("ZeroDivisionError", "", self.ctx.cur_line)
+            return T.truediv(a, b)
+        if getattr(self.ctx, "div_checks", False) and T.sort_of(b) in ("real", "int"):
+            # opt-in per contract: a scalar division is an obligation "divisor is not zero" (a zero divisor would give
+            # inf / nan, which the real-number encoding cannot represent)
+            self.ctx.oblige(T.tz(b) != 0, "divisor-not-zero", kind="index")
             return T.truediv(a, b)
         self.ctx.dropped.add("division: divisor assumed non-zero (IEEE inf/nan not modelled)")
         return T.truediv(a, b)
